@@ -907,26 +907,7 @@ impl<'a, F: Function + MathFunction + Clone + Cross> World<'a, F> {
             }
         }
         let vals = eval_f32(&pr.dag, x, y, z, &vars);
-        let no_nan = vals
-            .iter()
-            .zip(&pr.reach)
-            .all(|(v, r)| !*r || !v.is_nan());
-        // Poles and the documented atan2(0, 0) exclusion: where a zero feeds
-        // an operation that is sensitive to the sign of zero (reciprocal,
-        // division, four-quadrant arctangent), evaluator kinds legitimately
-        // differ in the sign of zero they computed (C02 allows it), which can
-        // flip a later choice.  Those points are not regular points of the
-        // expression and are outside what simplification promises.
-        use crate::gen_::{Bin, Ex, Un};
-        let no_atan00 = pr.dag.n.iter().zip(&pr.reach).all(|(e, r)| {
-            !*r || match e {
-                Ex::B(Bin::Atan2, a, b) => vals[*a] != 0.0 && vals[*b] != 0.0,
-                Ex::B(Bin::Div | Bin::Mod, _, b) => vals[*b] != 0.0,
-                Ex::U(Un::Recip, a) => vals[*a] != 0.0,
-                _ => true,
-            }
-        });
-        no_nan && no_atan00
+        crate::gen_::regular_point(&pr.dag, &pr.reach, &vals)
     }
 
     /// C04 comparison of a child with its parent at the sample points
